@@ -337,6 +337,85 @@ def find_index_loops(fn):
     return out
 
 
+def find_slice_cursor_loops(fn):
+    """Loops that walk a slice with a shrinking cursor: `let mut rest = v.as_slice(); while let Some((item, tail)) =
+    rest.split_first() { ..; rest = tail; }`.  {bb of the split_first call: {"header": h, "rest": local}} for loops of exactly
+    this shape (the cursor has one definition outside the loop and one inside, `rest = tail` of this very call, in a block that
+    dominates every back edge).  Analysed like `for item in v`."""
+    cached = getattr(fn, "_slice_cursor_loops", None)
+    if cached is not None:
+        return cached
+    out = {}
+    try:
+        loops = fn.natural_loops()
+        defs = fn.defs()
+        backs = fn.back_edges()
+
+        def origin(l, depth=0):
+            # follow reborrows / copies back to a user local
+            d = fn.single_def(l)
+            if depth > 4 or d is None or d["kind"] != "assign":
+                return l
+            rv = d["stmt"]["rv"]
+            if rv["k"] == "ref" and [e["k"] for e in rv["p"]["pj"]] == ["deref"]:
+                return origin(rv["p"]["l"], depth + 1)
+            if rv["k"] == "use" and rv["op"].get("k") in ("copy", "move") and not rv["op"]["p"]["pj"]:
+                return origin(rv["op"]["p"]["l"], depth + 1)
+            return l
+        for h, body in loops.items():
+            srcs = [a for a, b in backs if b == h]
+            for c in sorted(body):
+                t = fn.term(c)
+                if t["k"] != "call" or not re.search(r"<impl \[.*\]>::split_first$", M.call_name(t)) or not t["args"] or t["args"][0].get("k") not in ("copy", "move"):
+                    continue
+                rest = origin(t["args"][0]["p"]["l"])
+                ds = defs.get(rest, [])
+                full = [d for d in ds if not d["partial"]]
+                if len(full) != 2 or any(d["kind"] == "borrow_mut" for d in ds):
+                    continue
+                ins = [d for d in full if d["bb"] in body]
+                if len(ins) != 1 or ins[0]["kind"] != "assign":
+                    continue
+                rv = ins[0]["stmt"]["rv"]
+                tl = None
+                if rv["k"] == "ref" and [e["k"] for e in rv["p"]["pj"]] == ["deref"]:
+                    tl = rv["p"]["l"]
+                elif rv["k"] == "use" and rv["op"].get("k") in ("copy", "move") and not rv["op"]["p"]["pj"]:
+                    tl = rv["op"]["p"]["l"]
+                if tl is None:
+                    continue
+                # tail = (R as Some).0.1 of this call
+                n_ = 0
+                ok_tail = False
+                while n_ < 4:
+                    n_ += 1
+                    d = fn.single_def(tl)
+                    if d is None or d["kind"] != "assign":
+                        break
+                    r2 = d["stmt"]["rv"]
+                    if r2["k"] == "use" and r2["op"].get("k") in ("copy", "move"):
+                        pj = r2["op"]["p"]["pj"]
+                        if [e["k"] for e in pj] == ["downcast", "field", "field"] and pj[1]["i"] == 0 and pj[2]["i"] == 1 and r2["op"]["p"]["l"] == t["dest"]["l"]:
+                            ok_tail = True
+                            break
+                        if not pj:
+                            tl = r2["op"]["p"]["l"]
+                            continue
+                    if r2["k"] == "ref" and [e["k"] for e in r2["p"]["pj"]] == ["deref"]:
+                        tl = r2["p"]["l"]
+                        continue
+                    break
+                if not ok_tail:
+                    continue
+                if not all(fn.dominates(c, s_) and fn.dominates(ins[0]["bb"], s_) for s_ in srcs):
+                    continue
+                out[c] = {"header": h, "rest": rest}
+    except Exception:
+        out = {}
+    fn._slice_cursor_loops = out
+    return out
+
+
 class Engine:
     _next_frame = [0]
 
@@ -349,6 +428,7 @@ class Engine:
         self.desugar = desugar
         self.inline = inline
         self.index_loops = find_index_loops(fn) if facts is not None else {}
+        self.slice_cursors = find_slice_cursor_loops(fn) if facts is not None else {}
         self.max_depth = max_depth
         self.fn = fn
         self.facts = facts
@@ -1608,6 +1688,15 @@ class Engine:
                     lin_ = linear(cv_) if cv_ is not None else None
                     if lin_ != ({("sym", "index@bb%d" % target): 1}, 1):
                         pth.end = ("cut-noncanonical", bb, target)
+                for c_, sc_ in self.slice_cursors.items():
+                    if sc_["header"] == target and ("slice-cursor", c_) in pth.assume:
+                        rv_ = pth.locals.get((self.fid, sc_["rest"]))
+                        n_ = 0
+                        while rv_ is not None and rv_[0] == "ref" and n_ < 4 and not (rv_[1][0] == "loc" and rv_[1][1] == ("sym", "rest@bb%d" % c_)):
+                            rv_ = self.deref_val(pth, rv_)
+                            n_ += 1
+                        if not (rv_ is not None and ((rv_[0] == "ref" and rv_[1][1] == ("sym", "rest@bb%d" % c_) and not rv_[1][2]) or rv_ == ("sym", "rest@bb%d" % c_))):
+                            pth.end = ("cut-noncanonical", bb, target)
                 return (None, pth)
             if target in self.stop:
                 pth.end = ("stop", target)
@@ -1703,6 +1792,27 @@ class Engine:
             name = M.call_name(t)
             snap0 = tuple(self.snapshot(path, a) for a in args)
             outcomes = None
+            sc = self.slice_cursors.get(bb)
+            if sc is not None and args and ("slice-cursor", bb) not in path.assume:
+                # the split_first of a shrinking-cursor walk over a slice: no element left / one more element and the rest
+                cv = self.deref_val(path, args[0]) if args[0][0] == "ref" else args[0]
+                n_ = 0
+                while cv[0] == "ref" and n_ < 4:
+                    cv = self.deref_val(path, cv)
+                    n_ += 1
+                path.assume[("slice-cursor", bb)] = cv
+                item = ("ref", ("loc", ("sym", "item@bb%d" % bb), ()), False)
+                rest = ("ref", ("loc", ("sym", "rest@bb%d" % bb), ()), False)
+                OPT_ = "std::option::Option"
+                pe = path.fork()
+                pe.events.append(("iter-exhausted", bb, "slice-cursor", cv))
+                pe.events.append(("call", bb, name, tuple(args), ("adt", OPT_, "None", ()), t, self.fn.name, snap0))
+                self.write_loc(pe, self.loc_of_place(pe, t["dest"]), ("adt", OPT_, "None", ()), bb)
+                path.events.append(("iter-item", bb, "slice-cursor", cv, ("sym", "item@bb%d" % bb)))
+                val = ("adt", OPT_, "Some", (("tuple", (item, rest)),))
+                path.events.append(("call", bb, name, tuple(args), val, t, self.fn.name, snap0))
+                self.write_loc(path, self.loc_of_place(path, t["dest"]), val, bb)
+                return [go(t["target"], pe), go(t["target"], path)]
             if self.model is not None:
                 outcomes = self.model.call(self, path, bb, t, args)
             if outcomes is None:
